@@ -38,7 +38,7 @@ ASSUMPTIONS = [
     "sys is 0-indexed and given as a Python int or a list of Python ints (numpy integer scalars and arrays are outside the documented forms)",
     "a one-element dim list [d] is the scalar form (it means [d, N/d]); a single subsystem is therefore only reachable as [N] == [N, 1]",
     "matrix size is at least 2; the intermediate result of a composition is only traced again when its size is at least 2",
-    "integer inputs are int64 (narrower integer dtypes are widened by numpy.sum, which is not a property violation)",
+    "integer inputs are int64 except in the sub-check narrow_int (int8 ... int32, uint8, uint16, bool), where only the values - exact integer arithmetic - are asserted, not the result dtype (numpy.sum widens narrow integers, which is not a property violation)",
     "for float/complex PRNG inputs equality is up to 1e-9*scale (summation order is free); integer, labelled and small-rational inputs are compared exactly",
     "cvxpy Variables carry a value consistent with their attribute (exactly Hermitian / symmetric); Variables without a value are not compared",
 ]
@@ -142,6 +142,54 @@ def check_index_model(case):
 
 def nt_index(case):
     return _nt_dims(case["d"], case["S"])
+
+
+# ------------------------------------------------------------------------------------------
+# 1b. narrow integer and boolean dtypes: the *values* of the contraction must be exact.  The result dtype is not
+# asserted (numpy.sum widens narrow integers); what is asserted is that no sum wraps around in the input's dtype -
+# seeded change C02-c1 (contraction moved to an einsum that accumulates in int8 / counts booleans with a logical OR)
+# was missed while every integer input was int64.
+# ------------------------------------------------------------------------------------------
+_NARROW = {"int8": 127, "int16": 32767, "int32": 2**31 - 1, "uint8": 255, "uint16": 65535, "bool": 1}
+
+
+@st.composite
+def _narrow_case(draw):
+    c = draw(_index_case(nmax=4, budget=36))
+    c.pop("x")
+    c["dtype"] = draw(st.sampled_from(sorted(_NARROW)))
+    c["seed"] = draw(gen.SEED)
+    return c
+
+
+def check_narrow_int(case):
+    from toqito.channels import partial_trace
+
+    d, S = case["d"], case["S"]
+    N = gen.prod(d)
+    g = gen.rng(case["seed"])
+    top = _NARROW[case["dtype"]]
+    if case["dtype"] == "bool":
+        x = g.integers(0, 2, size=(N, N)).astype(bool)
+    else:
+        # entries in the upper third of the dtype's range: any sum of two or more of them leaves the range
+        x = g.integers(top - top // 3, top + 1, size=(N, N)).astype(case["dtype"])
+    exp = ref.partial_trace(x.astype(np.int64), S, d)
+    out = np.asarray(partial_trace(x, _sys_arg(S, case["sysform"]), list(d)))
+    req(out.shape == exp.shape, f"partial_trace of a {case['dtype']} matrix: shape {out.shape}, expected {exp.shape}", "shape")
+    req(out.dtype.kind in "iub", f"partial_trace of a {case['dtype']} matrix returned dtype {out.dtype}", "dtype")
+    bad = np.argwhere(out.astype(object) != exp.astype(object))
+    req(
+        len(bad) == 0,
+        f"partial_trace(x, {S}, {d}) of a {case['dtype']} matrix: entry {tuple(bad[0]) if len(bad) else ()} is {out[tuple(bad[0])] if len(bad) else ''} "
+        f"(dtype {out.dtype}) but the contraction in exact integer arithmetic gives {exp[tuple(bad[0])] if len(bad) else ''}",
+        "narrow-int:value",
+    )
+
+
+def nt_narrow(case):
+    traced = gen.prod([case["d"][i] for i in case["S"]])
+    return f"{case['dtype']},traced={traced}" if traced >= 2 else None
 
 
 # ------------------------------------------------------------------------------------------
@@ -436,6 +484,7 @@ SUBCHECKS = [
     SubCheck("index_model", check_index_model, _index_case, nt_index, quick=24000, thorough=400000, fuzz=20000),
     # larger systems (up to 12 subsystems in drawn order, total dimension up to 256): the property is not bounded in size
     SubCheck("index_model_large", check_index_model, lambda: _index_case(nmax=12, budget=256, shuffle=True), nt_index, quick=1200, thorough=24000),
+    SubCheck("narrow_int", check_narrow_int, _narrow_case, nt_narrow, quick=3000, thorough=50000),
     SubCheck("linear_trace", check_linear_trace, _linear_case, nt_linear, quick=7000, thorough=120000),
     SubCheck("product", check_product, _product_case, nt_product, quick=7000, thorough=120000),
     SubCheck("compose_order", check_compose, _compose_case, nt_compose, quick=7000, thorough=120000),
